@@ -36,7 +36,11 @@ static ssize_t src_chunk(void *drv, void *buf, size_t n)
     SrcD *s = drv;
     if (++budget > BUDGET) longjmp(bail, 1);
     s->calls++;
-    if (s->pos >= s->L) return -ENODATA;
+    if (s->pos >= s->L) {
+        /* at the end of the data a driver may still say "nothing right now" before it reports the end */
+        if (s->is < s->nss && (s->ss[s->is] == 0 || s->ss[s->is] == -4 || s->ss[s->is] == -11)) return (ssize_t)s->ss[s->is++];
+        return -ENODATA;
+    }
     long long b = next_s(s);
     if (b <= 0) return (ssize_t)b;
     long d = amount(b, (long)n);
@@ -50,7 +54,10 @@ static int src_octet(void *drv, void *buf)
     SrcD *s = drv;
     if (++budget > BUDGET) longjmp(bail, 1);
     s->calls++;
-    if (s->pos >= s->L) return -ENODATA;
+    if (s->pos >= s->L) {
+        if (s->is < s->nss && (s->ss[s->is] == 0 || s->ss[s->is] == -4 || s->ss[s->is] == -11)) return (int)s->ss[s->is++];
+        return -ENODATA;
+    }
     long long b = next_s(s);
     if (b <= 0) return (int)b;
     *(unsigned char *)buf = (unsigned char)(s->pos + 1);
